@@ -319,7 +319,13 @@ func runOne(t *testing.T, sc scenario, ch *sched.Chooser) (res sched.Result) {
 			if status == "done" && cancelSeq == 0 && fmt.Sprint(got) != fmt.Sprint(want) {
 				fail("wrong-indexes", "replica calls %v, want exactly %v", got, want)
 			}
-			for id, idx := range got {
+			gotIDs := make([]string, 0, len(got))
+			for id := range got {
+				gotIDs = append(gotIDs, id)
+			}
+			sort.Strings(gotIDs)
+			for _, id := range gotIDs {
+				idx := got[id]
 				if fmt.Sprint(idx) != fmt.Sprint(want[id]) {
 					fail("wrong-indexes", "replica %s called with indexes %v, want %v", id, idx, want[id])
 				}
